@@ -104,6 +104,9 @@ func (pl *verifDiffPool) compare(where string) error {
 		if m.v < m.lb || m.v > m.ub {
 			return fmt.Errorf("%s: nat %d: value %#x outside the model's bounds [%#x, %#x]", where, i, m.v, m.lb, m.ub)
 		}
+		if m.um > 1 && verifDiffGCD(m.v, m.um) != 1 {
+			return fmt.Errorf("%s: nat %d: value %#x is marked coprime to %d but is not", where, i, m.v, m.um)
+		}
 	}
 	for i, r := range pl.ri {
 		m := pl.mi[i]
@@ -120,6 +123,9 @@ func (pl *verifDiffPool) compare(where string) error {
 		if a.Uint64() != m.abs.v {
 			return fmt.Errorf("%s: int %d magnitude: real %#x, model %#x (announced %d)", where, i, a.Uint64(), m.abs.v, m.abs.ann)
 		}
+		if m.abs.um > 1 && verifDiffGCD(m.abs.v, m.abs.um) != 1 {
+			return fmt.Errorf("%s: int %d: magnitude %#x is marked coprime to %d but is not", where, i, m.abs.v, m.abs.um)
+		}
 		if m.abs.v < m.abs.lb || m.abs.v > m.abs.ub {
 			return fmt.Errorf("%s: int %d: magnitude %#x outside the model's bounds [%#x, %#x]", where, i, m.abs.v, m.abs.lb, m.abs.ub)
 		}
@@ -131,6 +137,13 @@ func (pl *verifDiffPool) compare(where string) error {
 		}
 	}
 	return nil
+}
+
+func verifDiffGCD(a, b uint64) uint64 {
+	for b != 0 {
+		a, b = b, a%b
+	}
+	return a
 }
 
 func (pl *verifDiffPool) dump() string {
@@ -215,6 +228,23 @@ func TestVerifSaferithModel(t *testing.T) {
 			m := &verifMMod{}
 			verifMModFromNat(m, ms)
 			pl.rm, pl.mm = append(pl.rm, saferith.ModulusFromNat(src)), append(pl.mm, m)
+		}
+		// unit marks, as a harness would put them: on values that really are coprime to a modulus of the
+		// pool (or to the product of the two)
+		for i := range pl.mn {
+			um := pl.mm[rng.Intn(KM)].v
+			if p := pl.mm[0].v * pl.mm[1].v; rng.Intn(2) == 0 && pl.mm[0].v>>16 == 0 && pl.mm[1].v>>16 == 0 {
+				um = p
+			}
+			if rng.Intn(2) == 0 && um > 1 && pl.mn[i].ann > 0 && verifDiffGCD(pl.mn[i].v, um) == 1 {
+				pl.mn[i].um = um
+			}
+		}
+		for i := range pl.mi {
+			um := pl.mm[rng.Intn(KM)].v
+			if rng.Intn(2) == 0 && um > 1 && pl.mi[i].abs.ann > 0 && verifDiffGCD(pl.mi[i].abs.v, um) == 1 {
+				pl.mi[i].abs.um = um
+			}
 		}
 		verifEscaped = 0
 		if err := pl.compare(fmt.Sprintf("seq %d init", seq)); err != nil {
@@ -427,7 +457,6 @@ func TestVerifSaferithModel(t *testing.T) {
 	}
 	t.Logf("sequences %d, steps fully compared %d, seed %d", seqs, compared, seed)
 }
-
 
 // TestVerifSaferithModelNumct validates the four numct-level contracts of zz_verif_sfmodel_ext.go
 // against the real numct functions: the contracts are run natively on ghost records registered for
